@@ -18,7 +18,9 @@ def doc_history_alphabet(tier, with_values=None, rich=False):
             ("bun", "B1", ("C", "b1", Q("bn"))),
             # a bundle built on its own and attached with add_bundle(): its identifier's namespace is
             # unknown to the document
-            ("addb", "B1", ("C", "b1", Q("zz")))]
+            ("addb", "B1", ("C", "b1", Q("zz"))),
+            # ... and one whose identifier uses the document's prefix for another URI
+            ("addb", "B1", ("B", "b1", Q("ex")))]
     ops += [("ns", "B1", "ex", "A"), ("ns", "B1", "ex", "B"), ("ns", "B1", "q", "B")]
     ops += [("def", "B1", "B"), ("def", "B1", "A")]
     # elements, every spelling, both scopes
